@@ -145,6 +145,17 @@ def c05_scripts(ctx):
     sc += tfile_scripts(ctx, modes=("whole", "bytes", "rand"))
     sc += handover_scripts(ctx, 250 if ctx.tier == "quick" else 10000)
     sc += lib.load_fuzz_corpus(ctx, 1500, "C05")
+    # stray lines around status lines and request lines: a first response line that is not a status line is treated as body, and what
+    # follows it in the same chunk decides whether the parser stays in the line state
+    for _ in range(150 if ctx.tier == "quick" else 3000):
+        stray = rng.choice((b"junk\r\n", b"xyz abc def\r\n", b"\r\n", b"HTTP\r\n", b"http/1.1\r\n", b"200 OK\r\n", b"x\n", b"\x00\x01\r\n"))
+        real = rng.choice((b"HTTP/1.1 204 No Content\r\n\r\n", b"HTTP/1.1 200 OK\r\nContent-Length: 2\r\n\r\nok", b"http/1.1 204 No Content\r\nX: y\r\n\r\n",
+                           b"HTTP/1.1 200 OK\r\nTransfer-Encoding: chunked\r\n\r\n1\r\na\r\n0\r\n\r\n", b"HTTP/1.0 200 OK\r\n\r\nbody", b"HTTP/1.1 100 Continue\r\n\r\nHTTP/1.1 200 OK\r\nContent-Length: 0\r\n\r\n"))
+        S = rng.choice((stray + real, real + stray, stray + stray + real, real[:rng.randint(1, len(real))] + stray + real))
+        R = rng.choice((b"GET /s HTTP/1.1\r\nHost: h\r\n\r\n", b"\r\nGET /s HTTP/1.1\r\nHost: h\r\n\r\n", b"junk\r\nGET /s HTTP/1.1\r\nHost: h\r\n\r\n", b"GET /s HTTP/1.1\r\nHost: h\r\n\r\nGET /t HTTP/1.1\r\nHost: h\r\n\r\n"))
+        items = [">" + traffic.hx(p) for p in traffic.chunkings(R, rng, rng.choice(("whole", "rand")))] + \
+                ["<" + traffic.hx(p) for p in traffic.chunkings(S, rng, rng.choice(("whole", "whole", "rand", "bytes", ("cut", rng.randint(1, len(S) - 1)))))]
+        sc.append(traffic.script(rng.choice(("respdecomp=0", "p=IDS,respdecomp=0", "respdecomp=0,autodestroy=1")), traffic.rand_policy(rng) if rng.random() < 0.2 else "-", items))
     return sc
 
 
@@ -210,11 +221,17 @@ def handover_scripts(ctx, n):
 def c05_oracle(sc, outs):
     found = []
     mon = cl.Monitor()
+    # every violation of a different kind is reported (one of a known class must not hide another that follows it in the same script)
+    kinds = set()
     for e in cl.all_events(sc, outs):
         r = mon.feed(e)
         if r:
-            found.append(r)
-            break
+            k = r[0].split(":")[0]
+            if k not in kinds:
+                kinds.add(k)
+                found.append(r)
+            if len(found) >= 4:
+                break
     return found
 
 
